@@ -3,16 +3,18 @@ Oracle/C06.lean — line-protocol oracle for property C06 (core only; compiled t
 
   mux <stream> <events> <tags> <tags without payload> => <results>
       stream  = frames the fake broker sent on the Conn, in order: id:tag,…
-      events  = the recorded C.* hook events: W<tag>:<ok> T<seq> Y<seq>:<seen> L<seq>:<seen> E<seq> F<seq>:<ok|kafka|io>
+      events  = the recorded C.* hook events: W<tag>:<ok>:<id> T<seq> Y<seq>:<seen> L<seq>:<seen> E<seq> F<seq>:<ok|kafka|io>
       tags    = the tags of the API calls the harness made (tag 0 = internal ApiVersions exchanges)
       model   = trace acceptance through Model/ConnMux.step (`reject@i:<event>` names the first event the model
                 cannot take), then for every tag the result the model's final state gives that call
-      holds   = tag-equality monitor on the IMPLEMENTATION's results: every `tag:ok:x` has x = tag
+      holds   = tag-equality monitor on the IMPLEMENTATION's results (every `tag:ok:x` has x = tag) ∧
+                Spec.Mux.idsUnique on the recorded events (no C.Write reuses the id of a call still in flight)
   tconn <journals> <events> <tags> => <results>     the same for Model/TransportConn
 -/
 import KafkaVerif.Base.Proto
 import KafkaVerif.Model.ConnMux
 import KafkaVerif.Model.TransportConn
+import KafkaVerif.Spec.MuxMonitor
 
 namespace KV.OracleC06
 open KV
@@ -44,7 +46,7 @@ def parseEvent (s : String) : Option Event :=
   let k := (s.take 1).toString
   let rest := (s.drop 1).toString.splitOn ":"
   match k, rest with
-  | "W", [t, ok] => do let t ← t.toNat?; pure (.write t (ok == "1"))
+  | "W", [t, ok, id] => do let t ← t.toNat?; let id ← id.toNat?; pure (.write t (ok == "1") id)
   | "T", [q] => q.toNat?.map .take
   | "Y", [q, n] => do let q ← q.toNat?; let n ← n.toNat?; pure (.yield q n)
   | "L", [q, n] => do let q ← q.toNat?; let n ← n.toNat?; pure (.lone q n)
@@ -54,14 +56,22 @@ def parseEvent (s : String) : Option Event :=
   | "F", [q, "io"] => q.toNat?.map (.finish · .io)
   | _, _ => none
 
+/-- the same events as the reference monitor reads them -/
+def specEv : Event → KV.Spec.Mux.Ev
+  | .write _ ok id => .wrote id ok
+  | .finish seq _ => .ended (wire seq)
+  | .peekErr seq => .ended (wire seq)
+  | .lone seq _ => .ended (wire seq)
+  | _ => .other
+
 def showResult (tag : Nat) : Status → String
   | .done (.resp _ f) => s!"{tag}:ok:{f.tag}"
   | .done (.kafkaErr _ _) => s!"{tag}:kafka"
   | .done .err => s!"{tag}:err"
   | _ => s!"{tag}:pending"
 
-def resultOf (s : State) (noPayload : List Nat) (tag : Nat) : String :=
-  match s.callList.find? (·.2.tag == tag) with
+def resultOf (calls : List (Nat × Call)) (noPayload : List Nat) (tag : Nat) : String :=
+  match calls.find? (·.2.tag == tag) with
   | some (_, c) =>
     match c.st with
     | .done (.resp _ _) => if noPayload.contains tag then s!"{tag}:ok:?" else showResult tag c.st
@@ -73,11 +83,12 @@ def handle (stream events tags noPayload impl : String) : String :=
   match (commaList stream).mapM parseFrame, (commaList events).mapM parseEvent, (commaList tags).mapM (·.toNat?) with
   | some fs, some es, some ts =>
     let model := match run fs es with
-      | some s => let l := ts.map (resultOf s op); if l.isEmpty then "-" else ",".intercalate l
+      | some s => let cl := s.callList; let l := ts.map (resultOf cl op); if l.isEmpty then "-" else ",".intercalate l
       | none => match firstRejected (init fs) es 0 with
         | some i => s!"reject@{i}:{(commaList events).getD i "?"}"
         | none => "reject"
-    answer model (tagsHold impl)
+    -- monitors on what the implementation did: payload tags at the API, and no in-flight id reused on the wire
+    answer model (tagsHold impl && KV.Spec.Mux.idsUnique (es.map specEv))
   | _, _, _ => "bad-op"
 
 end Mux
